@@ -407,14 +407,17 @@ func c19IsCounterOf(f *core.FuncInfo, i *types.Var, loop *ast.ForStmt) bool {
 		if a.Stmt.Pos() >= loop.Body.Pos() {
 			return false
 		}
-		head, _ := f.LoopOf(loop)
+		head, done := f.LoopOf(loop)
 		if head == nil {
 			return false
 		}
 		if ok, _ := f.MustPassBefore([]core.Point{a.Pt}, core.Point{B: head, I: 0}); !ok {
 			return false
 		}
-		if f.CanReach(a.Pt, a.Pt) {
+		// the initialisation is not repeated while the loop runs: from the loop's test it is reached again
+		// only after the loop was left (a loop nested in another one is entered afresh, with its counter
+		// zeroed again, in every iteration of the outer loop)
+		if _, again := (core.PathQuery{F: f, From: core.Point{B: head, I: 0}, Target: core.PointSet(a.Pt), AvoidEdge: func(b *cfg.Block, s int) bool { return done != nil && b.Succs[s] == done }}).Find(); again {
 			return false
 		}
 	}
